@@ -181,8 +181,14 @@ def run(rep, tier):
                                                      'G3-protocol', 'G6-temp-unique'))
     for K, want in {'Let': 18, 'Seq': 1300, 'Where': 18, 'Apply': 36}.items():
         rep.floor(f'configurations of {K}', total.get(K, 0), want)
+    # data-dependent repetition counts: the configurations of List whose bounds are names
+    sym = lambda f: any(f"{b}='n'" in str(f.get('config', '')) for b in ('min_len', 'max_len'))
+    tl = e1run.run(rep, ['List'], tier,
+                   select=lambda f: sym(f) and f['rule'] in ('S-value', 'S-flow', 'S-list', 'G1-no-trace', 'G2-as-sound',
+                                                               'G2-cp-sound', 'G3-protocol'))
+    rep.floor('configurations of List', tl.get('List', 0), 100)
     shared.driver_memo_per_call(rep)
-    found, stats, nmods = routes.run(rep, 'C05', ['LOCAL-shadow', 'LOCAL-let-scope', 'C05-', 'C14-field-tables',
+    found, stats, nmods = routes.run(rep, 'C05', ['LOCAL-shadow', 'LOCAL-let-scope', 'PY-in-place', 'C05-', 'C14-field-tables',
                                                    'ARG-captures'])
     rep.floor('generated classes examined', stats['classes'], 12)
     freevar_protocol(rep)
